@@ -144,7 +144,7 @@ impl Prop for C14Prop {
         "C14"
     }
     fn rule(&self) -> String {
-        "Streams: sigma3 = every sequence of 3 lexemes over the 109-lexeme alphabet; sigma2sep = every pair x 3 separators; random (proptest tapes) = soup / arbitrary UTF-8 / mutated seeds / directive-heavy / nested inputs; prog = grammar-generated well-formed programs in random layouts with comments and conditional directives (parent and end-of-file clauses). Oracle on DelphiLogicalLineParser.parse(DelphiLexer.lex(x)): every line non-empty, token indices in range and strictly increasing, every token in >= 1 line and in exactly 1 when the input has no conditional-directive token; for well-formed programs additionally: a child's parent line precedes it and contains the parent token, exactly one end-of-file line and it holds only the end-of-file token. Non-trivial = >= 15 tokens and (>= 1 child line or >= 1 conditional directive); distinct by input hash."
+        "Streams: sigma3 = every sequence of 3 lexemes over the 109-lexeme alphabet; sigma2sep = every pair x 3 separators; random (proptest tapes) = soup / arbitrary UTF-8 / mutated seeds / directive-heavy / nested inputs; prog = grammar-generated well-formed programs in random layouts with comments and conditional directives (parent and end-of-file clauses). Stream tail = a generated complete file followed by further text after its final `end.`. Oracle on DelphiLogicalLineParser.parse(DelphiLexer.lex(x)): every line non-empty, token indices in range and strictly increasing, every token in >= 1 line and in exactly 1 when the input has no conditional-directive token; for well-formed programs additionally: a child's parent line precedes it and contains the parent token, exactly one end-of-file line and it holds only the end-of-file token. Non-trivial = >= 15 tokens and (>= 1 child line or >= 1 conditional directive); distinct by input hash."
             .into()
     }
     fn assumptions(&self) -> Vec<String> {
@@ -159,6 +159,7 @@ impl Prop for C14Prop {
             Stream::random("any_chk", if q { 1500 } else { 15000 }, 400).chk(),
         ];
         v.extend(crate::props::wf::wf_streams(tier, 3));
+        v.push(Stream::random("tail", if q { 3000 } else { 30000 }, 700));
         if !q {
             v.push(Stream::exhaustive("sigma4", soup::space_size(4)));
         }
@@ -170,6 +171,26 @@ impl Prop for C14Prop {
             "any" => {
                 let (input, g) = common::gen_any_input(t, 100);
                 Some(Case::text(g, input, Cfg::default()))
+            }
+            "tail" => {
+                // a complete file followed by further text after its final `end.` (the compiler
+                // ignores it; every token must still belong to a logical line)
+                let mut c = crate::props::wf::wf_generate("prog", t, false)?;
+                if !c.input.trim_end().to_ascii_lowercase().ends_with("end.") {
+                    return None;
+                }
+                let tail = *t.pick(&[
+                    "\nFoo;\nBar := 1;\n",
+                    " trailing words here",
+                    "\n// note\nprocedure P; begin end;\n",
+                    "\n{ comment }\nX := Y;",
+                    "\nunit Other;\ninterface\nimplementation\nend.\n",
+                    " . end. end",
+                ]);
+                c.input.push_str(tail);
+                c.ann = None;
+                c.gen = "tail".into();
+                Some(c)
             }
             s => crate::props::wf::wf_generate(s, t, false),
         }
